@@ -1,0 +1,45 @@
+//go:build verif
+
+// Contracts for package dlog (comment-only; read by /verif/govc, never compiled
+// into a binary: the file contains no declarations).
+
+package dlog
+
+//@ global-invariant [dlog-started] Server != nil && Client != nil && Common != nil
+
+// The leveled logging methods are trusted: they do not panic and change no
+// state any verified function reads. FatalPanic always panics.
+
+//@ func (*DLog).Fatal
+//@   trusted
+//@   assigns nothing
+//@ func (*DLog).Error
+//@   trusted
+//@   assigns nothing
+//@ func (*DLog).Warn
+//@   trusted
+//@   assigns nothing
+//@ func (*DLog).Info
+//@   trusted
+//@   assigns nothing
+//@ func (*DLog).Verbose
+//@   trusted
+//@   assigns nothing
+//@ func (*DLog).Debug
+//@   trusted
+//@   assigns nothing
+//@ func (*DLog).Trace
+//@   trusted
+//@   assigns nothing
+//@ func (*DLog).Devel
+//@   trusted
+//@   assigns nothing
+//@ func (*DLog).Mapreduce
+//@   trusted
+//@   assigns nothing
+//@ func (*DLog).Flush
+//@   trusted
+//@   assigns nothing
+//@ func (*DLog).FatalPanic
+//@   trusted
+//@   noreturn
